@@ -365,3 +365,78 @@ def rule_readkinds(ctx, prop: str) -> RuleResult:
         raise AnalysisError(f"READKINDS: expected >= 6 kind-dispatching mk_read callbacks, found {n_cb}")
     res.floor = 6
     return res
+
+
+def rule_declusesync(ctx, prop: str) -> RuleResult:
+    """A use of a whole buffer (`Read` with no index: a call argument) carries a COPY of the
+    buffer's type, and scheduling (`set_window`) changes the declaration without touching
+    the copies (a test of the unedited suite pins that).  The backend check that rejects
+    "window passed where a dense tensor is expected" (`WindowAnalysis`) must therefore
+    decide window-ness of an actual argument from the declarations it has seen — argument
+    list, allocations, window statements — not from `<actual>.type` alone."""
+    ix = ctx.ix
+    res = RuleResult("DECLUSESYNC")
+    WA = "src/exo/backend/win_analysis.py"
+    c = ix.module(WA).cls("WindowAnalysis")
+    res.analysed.append(f"{WA}:WindowAnalysis")
+    # (1) the rejecting test
+    rejecting = []
+    for f in [c.methods.get("map_s")] + [g for q, g in ix.module(WA).funcs.items() if q.startswith("WindowAnalysis.map_s.")]:
+        if f is None:
+            continue
+        for n in f.body_nodes():
+            if isinstance(n, ast.If):
+                from ..flow import always_raises
+
+                if always_raises(n.body) and "is_win" in ast.unparse(n.test):
+                    rejecting.append((f, n))
+    if not rejecting:
+        raise AnalysisError("anchor vanished: the raising window/dense test of WindowAnalysis")
+    decl_lookup_methods = set()
+    for name, meth in c.methods.items():
+        if any(isinstance(k, ast.Subscript) and (dotted(k.value) or "").startswith("self.") for k in meth.body_nodes()) and name not in ("map_s", "map_fnarg", "__init__"):
+            decl_lookup_methods.add(name)
+    for f, n in rejecting:
+        res.instances += 1
+        res.nontrivial += 1
+        t = n.test
+        uses_decl = any(
+            (isinstance(k, ast.Call) and isinstance(k.func, ast.Attribute) and dotted(k.func.value) == "self" and k.func.attr in decl_lookup_methods)
+            or (isinstance(k, ast.Subscript) and (dotted(k.value) or "").startswith("self."))
+            for k in ast.walk(t)
+        )
+        res.ob(uses_decl)
+        res.sample(f"{f.qualname}: the rejection `{ast.unparse(t)[:70]}` consults the declarations: {uses_decl}")
+        if not uses_decl:
+            res.add(
+                Finding("DECLUSESYNC", WA, n.lineno, f.qualname, "reject-by-use-type",
+                        "WindowAnalysis rejects a window passed for a dense tensor by looking at the type copied onto the argument expression only: after set_window(p, 'x', True) the "
+                        "copy on `bar(n, x)` still says dense, the call is accepted and the C passes `struct exo_win_1f32` where `float*` is expected (does not compile)")
+            )
+    # (2) all three kinds of declaration are recorded
+    recorded = set()
+    for name in ("map_fnarg", "map_s"):
+        meth = c.methods.get(name)
+        if meth is None:
+            continue
+        for k in meth.body_nodes():
+            if isinstance(k, ast.Assign) and isinstance(k.targets[0], ast.Subscript) and (dotted(k.targets[0].value) or "").startswith("self."):
+                if name == "map_fnarg":
+                    recorded.add("fnarg")
+                else:
+                    x, p_ = k, parent(k)
+                    while p_ is not None and not isinstance(p_, ast.If):
+                        x, p_ = p_, parent(p_)
+                    if isinstance(p_, ast.If):
+                        tt = ast.unparse(p_.test)
+                        for kind in ("Alloc", "WindowStmt"):
+                            if kind in tt:
+                                recorded.add(kind)
+    for kind in ("fnarg", "Alloc", "WindowStmt"):
+        res.instances += 1
+        ok = kind in recorded
+        res.ob(ok)
+        if not ok:
+            res.add(Finding("DECLUSESYNC", WA, c.node.lineno, "WindowAnalysis", f"decl:{kind}", f"WindowAnalysis does not record `{kind}` declarations: window-ness of such a buffer falls back to the (possibly stale) type on the use"))
+    res.floor = 4
+    return res
